@@ -45,9 +45,12 @@ def unq : List Nat → Option (Nat × Bool) → List Nat
 def unquote (s : List Nat) (q : Quotes) : List Nat :=
   if q = .none then s else unq s none
 
-/-- `impl PartialEq for CssString` -/
-def strEq (s1 : List Nat) (q1 : Quotes) (s2 : List Nat) (q2 : Quotes) : Bool :=
-  if q1 = q2 then s1 == s2 else unquote s1 q1 == unquote s2 q2
+/-- `impl PartialEq for CssString`.  Since commit 5b7f338:
+`(self.quotes == other.quotes && self.value == other.value) || unquote(self) == unquote(other)`;
+before (`rawOnly`): same quotes ⇒ raw text only. -/
+def strEq (rawOnly : Bool) (s1 : List Nat) (q1 : Quotes) (s2 : List Nat) (q2 : Quotes) : Bool :=
+  if rawOnly then (if q1 = q2 then s1 == s2 else unquote s1 q1 == unquote s2 q2)
+  else (decide (q1 = q2) && s1 == s2) || unquote s1 q1 == unquote s2 q2
 
 /-! ### numbers with units -/
 
@@ -67,7 +70,7 @@ def twoWayCmp {ν} [NumCmpOps ν] (c : CmpQuirks) (x y f g : ν) : Option Orderi
 def numericCmp {ν} [NumCmpOps ν] (q : ValQuirks) (env : Env ν) (x : ν) (ux : Nat) (y : ν) (uy : Nat) :
     Option Ordering :=
   if ux = uy then numCmp q.cmp x y
-  else if ux = 0 ∨ uy = 0 then noEqual (numCmp q.cmp x y)
+  else if ux = 0 ∨ uy = 0 then (if q.cmpOldUnitRules then noEqual (numCmp q.cmp x y) else numCmp q.cmp x y)
   else if q.convCmpOneWay then
     match env.conv uy ux with
     | some f => numCmp q.cmp x (mul y f)
@@ -77,9 +80,15 @@ def numericCmp {ν} [NumCmpOps ν] (q : ValQuirks) (env : Env ν) (x : ν) (ux :
     | some f, some g => twoWayCmp q.cmp x y f g
     | _, _ => none
 
-/-- `impl PartialEq for Numeric`: `partial_cmp == Some(Equal)` -/
+/-- `impl PartialEq for Numeric`: a unitless number is never `==` to a number with a unit
+(`1px == 1` is false although `1px <= 1` is true); otherwise `partial_cmp == Some(Equal)` -/
 def numericEq {ν} [NumCmpOps ν] (q : ValQuirks) (env : Env ν) (x : ν) (ux : Nat) (y : ν) (uy : Nat) : Bool :=
-  numericCmp q env x ux y uy == some .eq
+  if ux ≠ uy ∧ (ux = 0 ∨ uy = 0) then false
+  else numericCmp q env x ux y uy == some .eq
+
+/-- `Numeric::is_comparable`: same unit, one of them unitless, or convertible units -/
+def comparable {ν} (env : Env ν) (ux uy : Nat) : Bool :=
+  ux == uy || ux == 0 || uy == 0 || (env.conv uy ux).isSome
 
 /-! ### colours -/
 
@@ -98,7 +107,10 @@ def V.eq (q : ValQuirks) (env : Env ν) : V ν → V ν → Bool
   | .tt, .tt => true
   | .ff, .ff => true
   | .num x ux, .num y uy => numericEq q env x ux y uy
-  | .str s1 q1, .str s2 q2 => strEq s1 q1 s2 q2
+  | .num x ux, .numAtomic y uy => numericEq q env x ux y uy
+  | .numAtomic x ux, .num y uy => numericEq q env x ux y uy
+  | .numAtomic x ux, .numAtomic y uy => numericEq q env x ux y uy
+  | .str s1 q1, .str s2 q2 => strEq q.strEqSameQuotesRaw s1 q1 s2 q2
   | .color r1 g1 b1 a1, .color r2 g2 b2 a2 => colorEq r1 g1 b1 a1 r2 g2 b2 a2
   | .fn i, .fn j => i == j
   | .list xs s1 b1, .list ys s2 b2 => eqList q env xs ys && s1 == s2 && b1 == b2
@@ -146,6 +158,7 @@ mutual
 /-- no number inside the value is NaN -/
 def V.noNaN : V ν → Bool
   | .num x _ => !isNaN x
+  | .numAtomic x _ => !isNaN x
   | .list xs _ _ => noNaNList xs
   | .map kv => noNaNPairs kv
   | .arglist xs => noNaNList xs
@@ -180,7 +193,7 @@ inductive RelOp | eq | ne | lt | gt | le | ge
   deriving DecidableEq, Repr
 
 /-- Result of a comparison operator. -/
-inductive RelRes | bool (b : Bool) | unevaluated | unmodelled
+inductive RelRes | bool (b : Bool) | unevaluated | unmodelled | error
   deriving DecidableEq, Repr
 
 /-- `a < b` etc. on two `Value::Numeric(_, true)`: the derived `PartialOrd` of `css::Value`
@@ -195,6 +208,18 @@ def ordHolds (op : RelOp) (pc : Option Ordering) : Bool :=
   | .eq => pc == some .eq
   | .ne => !(pc == some .eq)
 
+/-- a number operand of an order operator: value, unit, `calculated` flag -/
+def V.asNumber : V ν → Option (ν × Nat × Bool)
+  | .num x u => some (x, u, true)
+  | .numAtomic x u => some (x, u, false)
+  | _ => none
+
+/-- derived `PartialOrd` on `Numeric(n, calculated)`: the numbers first, then `false < true` -/
+def flagThen (pc : Option Ordering) (ca cb : Bool) : Option Ordering :=
+  match pc with
+  | some .eq => some (if ca == cb then .eq else if cb then .lt else .gt)
+  | o => o
+
 /-- `Operator::{Equal,NotEqual,Lesser,Greater,LesserE,GreaterE}.eval(a, b)`.
 `==`/`!=` are defined on all values; the order operators only on two numbers (and on two
 strings, through the derived ordering of `CssString`, which is not modelled); everything
@@ -204,9 +229,15 @@ def V.rel (q : ValQuirks) (env : Env ν) (op : RelOp) (a b : V ν) : RelRes :=
   | .eq => .bool (V.eq q env a b)
   | .ne => .bool (!V.eq q env a b)
   | op =>
-    match a, b with
-    | .num x ux, .num y uy => .bool (ordHolds op (numericCmp q env x ux y uy))
-    | .str _ _, .str _ _ => .unmodelled
-    | _, _ => .unevaluated
+    match a.asNumber, b.asNumber with
+    | some (x, ux, ca), some (y, uy, cb) =>
+      if !q.cmpOldUnitRules && !comparable env ux uy then .error   -- `InvalidCss::Incompat`
+      else
+        let pc := numericCmp q env x ux y uy
+        .bool (ordHolds op (if q.ordCalcFlag then flagThen pc ca cb else pc))
+    | _, _ =>
+      match a, b with
+      | .str _ _, .str _ _ => .unmodelled
+      | _, _ => .unevaluated
 
 end Val
